@@ -9,7 +9,7 @@ OFF = int(os.environ.get("EVAL_OFFSET", "0"))
 REPO = os.environ.get("EVAL_REPO", "/repo")
 VERIF = os.environ.get("EVAL_VERIF", "/verif")
 os.makedirs(R, exist_ok=True)
-targets = sys.argv[1:] or sorted(p[len(S) + 1:] for p in glob.glob(S + "/C??/[0-9]"))
+targets = sys.argv[1:] or sorted(p[len(S) + 1:] for p in glob.glob(S + "/C??/[0-9]*"))
 OVERRIDE = {"C04/1": ["C09"], "C11/3": ["C11", "C01"]}
 EXTRA = {"C02/3": ["C06"], "C03/1": ["C05"], "C10/1": ["C05"], "C19/1": ["C13"], "C03/2": ["C10"], "C03/3": ["C10"], "C10/2": ["C10"], "C07/1": ["C07", "C17"], "C17/1": ["C17", "C07"],
          "C01/4": ["C14"], "C02/5": ["C06"], "C03/5": ["C05", "C10"], "C05/4": ["C10"],
